@@ -236,7 +236,7 @@ let run_case (line : string) : string =
       | None, None -> (side, side) in
     Printf.sprintf "OK %d %d 0 0 1" w h
   | "threads" -> Printf.sprintf "OK %d 0" (int_of_string a.(1) * int_of_string a.(2))
-  | "file" -> if L.mem a.(2) ["ok"; "overwrite"; "samelen"; "bare"; "trailspace"; "leadspace"; "trailnl"] then "RET_OK same=1" else "RET_ERR"   (* fsize: the oracle's write_all fails *)
+  | "file" -> if L.mem a.(2) ["ok"; "overwrite"; "samelen"; "bare"; "trailspace"; "leadspace"; "trailnl"; "otherext"; "noext"] then "RET_OK same=1" else "RET_ERR"   (* fsize: the oracle's write_all fails *)
   | _ -> Render.run_case a
 
 let () =
